@@ -83,10 +83,14 @@ def length_long_redundant(n):
     return bytes([0x80 | len(b)]) + b
 
 
-def tlv(ch, cls, num, constructed, content, label='tlv'):
+def tlv(ch, cls, num, constructed, content, label='tlv', force_indef=False):
+    idb = ident(cls, num, constructed)
+    if constructed and (force_indef or getattr(ch, 'all_indef', False)):
+        # one encoder-policy deviation ("stream everything" / "this whole tag chain indefinite") instead of one per TLV
+        ch.lastform = 'indef'
+        return idb + b'\x80' + content + b'\0\0'
     nopt = 3 if constructed else 2
     c = ch.pick(nopt, 'len:' + label)
-    idb = ident(cls, num, constructed)
     if c == 0:
         ch.lastform = 'def'
         return idb + length(len(content)) + content
@@ -178,6 +182,12 @@ def bits_content(v, named):
 
 # ------------------------------------------------------------------ encoder
 
+def encode_policy(mod, t, v, ch):
+    """encode() preceded by the encoder-policy choice 'every constructed TLV in the indefinite form' (one deviation)."""
+    ch.all_indef = ch.pick(2, 'all_indef') == 1
+    return encode(mod, t, v, ch)
+
+
 def encode(mod, t, v, ch=None, tag='own'):
     ch = ch or NoChoice()
     tl = T.taglist(mod, t, tag)
@@ -191,8 +201,9 @@ def encode(mod, t, v, ch=None, tag='own'):
                 body = encode(mod, m.type, av, ch, tg)
         assert body is not None, an
         forms = []
+        chain = len(tl) >= 2 and not getattr(ch, 'all_indef', False) and ch.pick(2, 'chain_indef') == 1
         for cls, num in reversed(tl):
-            body = tlv(ch, cls, num, True, body, 'wrap')
+            body = tlv(ch, cls, num, True, body, 'wrap', chain)
             forms.append(getattr(ch, 'lastform', 'def'))
         if len(set(forms)) > 1:
             ch.features.add('mixed_chain')
@@ -203,8 +214,9 @@ def encode(mod, t, v, ch=None, tag='own'):
         ch.features.add('constructed_string_retagged')
     forms = []
     body = content
+    chain = len(tl) >= 2 and constructed and not getattr(ch, 'all_indef', False) and ch.pick(2, 'chain_indef') == 1
     for i, (cls, num) in enumerate(reversed(tl)):
-        body = tlv(ch, cls, num, constructed if i == 0 else True, body, k if i == 0 else 'wrap')
+        body = tlv(ch, cls, num, constructed if i == 0 else True, body, k if i == 0 else 'wrap', chain)
         forms.append(getattr(ch, 'lastform', 'def'))
     if len(set(forms)) > 1:
         ch.features.add('mixed_chain')
@@ -317,6 +329,16 @@ def _content(mod, bt, v, ch):
                 if c:
                     ch.features.add('setof_reordered')
                     srt = srt[::-1]
+            if len(encs) > 1 and not isinstance(ch, NoChoice) and 'setof_reordered' not in ch.features:
+                # non-canonical element encodings can sort differently from the DER ones: the elements then arrive in
+                # another order than in the canonical encoding although no explicit re-ordering was chosen
+                canon = {}
+                for e, x in zip(encs, v):
+                    canon.setdefault(e, encode(mod, bt.elem, x, NoChoice()))
+                cs = [canon[e] for e in srt]
+                Lc = max(len(x) for x in cs)
+                if cs != sorted(cs, key=lambda x: x + b'\0' * (Lc - len(x))):
+                    ch.features.add('setof_reordered')
             encs = srt
         return b''.join(encs), True
     raise ValueError(k)
